@@ -69,6 +69,7 @@ TRUNCP = "d/trunc.pcap"
 EMPTYP = "d/empty.pcap"
 SHORTP = "d/short.pcap"
 GARBP = "d/garbage.pcap"
+NEARP = "d/nearmagic.pcap"     # a complete capture whose magic is A1B2CD34 ("modified pcap"): not the format p2sh reads
 PKP = "d/pk.pcap"
 LONG = "d/" + "n" * 300          # ENAMETOOLONG
 LOOP = "d/loop"                  # symlink to itself: ELOOP
@@ -77,7 +78,7 @@ NOTDIR_SLASH = "d/small.txt/"    # a trailing separator after a regular file: EN
 NOTDIR_DOT = "d/small.txt/."     # likewise
 PROCDIR = "/proc/self"           # a directory that reports size 0: opens fine, every read(2) fails with EISDIR
 PATH_IDS = {GOOD: 1, SMALL: 2, EXISTS: 3, DIR: 4, NOTDIR: 5, MISSING: 6, NODIR: 7, FULL: 8, GOODP: 9, TRUNCP: 10,
-            EMPTYP: 11, SHORTP: 12, GARBP: 13, PKP: 14, PROCMEM: 15, PROCDIR: 16}
+            EMPTYP: 11, SHORTP: 12, GARBP: 13, PKP: 14, PROCMEM: 15, PROCDIR: 16, NEARP: 17}
 
 
 def fresh_path(i):
@@ -118,6 +119,7 @@ def fixtures(fix):
         {"sec": 9, "usec": 10, "wirelen": 9000, "data": {"t": "pattern", "n": 9000, "mul": 7, "add": 2}},
     ]
     files = {GOOD: good, SMALL: small, EXISTS: exists, GOODP: goodp, TRUNCP: truncp, EMPTYP: b"", SHORTP: goodp[:10],
+             NEARP: b"\x34\xcd\xb2\xa1" + goodp[4:],
              GARBP: garb, PKP: pcapfmt.file_bytes(pcapfmt.default_header(), pk)}
     info = {"good": good, "small": small, "exists": exists, "recs": recs, "trunc_recs": trunc_recs, "hdr": hdr, "pk": pk, "garb": garb}
     return files, ["d", DIR], info
@@ -159,6 +161,8 @@ def _data_len(d):
 
 
 def _wd(kind):
+    if kind == "nl_byte":
+        return {"t": "byte", "v": 10}
     if kind == "pkt_small":
         return {"t": "pkt", "i": 0}
     if kind == "pkt_big":
@@ -201,7 +205,7 @@ def systematic_cases():
                         {"op": "write", "h": "h", "data": _wd("pkt_small")}]
             case(ops, note="real target %s mode %s" % (path, mode))
     for mode in ("r", "w", "x"):
-        for path in (MISSING, DIR, EXISTS, NOTDIR, NODIR, FULL, GOODP, TRUNCP, EMPTYP, SHORTP, GARBP, SMALL, fresh_path(0), LONG, LOOP, PROCMEM, NOTDIR_SLASH):
+        for path in (MISSING, DIR, EXISTS, NOTDIR, NODIR, FULL, GOODP, TRUNCP, EMPTYP, SHORTP, GARBP, SMALL, fresh_path(0), LONG, LOOP, PROCMEM, NOTDIR_SLASH, NEARP):
             if path == FULL and mode == "r":
                 continue
             if path == PROCMEM and mode != "r":
@@ -292,6 +296,8 @@ def systematic_cases():
             case(opn + [{"op": "write", "h": "h", "data": _wd("mid")}, {"op": "write", "h": "h", "data": _wd("fill")}, {"op": "write", "h": "h", "data": _wd("pkt_small"), "fault": f}, {"op": "flush", "h": "h"}],
                  note="write(h, small packet) spilling the buffer with %s" % ACTION_NAMES[act])
             case([{"op": "write", "h": "stdout", "data": _wd("pkt_big"), "fault": f}], note="write(stdout, packet) with %s" % ACTION_NAMES[act])
+            case([{"op": "write", "h": "stdout", "data": _wd("nonl")}, {"op": "write", "h": "stdout", "data": _wd("nl_byte"), "fault": f}, {"op": "write", "h": "stdout", "data": _wd("small")}],
+                 note="write(stdout, newline byte) with %s" % ACTION_NAMES[act])
             pw = [{"op": "pcap_open", "path": fresh_path(1), "mode": "w", "var": "p"}]
             case(pw + [{"op": "pcap_write", "h": "p", "pkt": 1, "fault": f}, {"op": "pcap_write", "h": "p", "pkt": 0}], note="pcap_write big with %s" % ACTION_NAMES[act])
             case(pw + [{"op": "pcap_write", "h": "p", "pkt": 1}, {"op": "pcap_write", "h": "p", "pkt": 1, "fault": f}], note="pcap_write 2nd big with %s" % ACTION_NAMES[act])
@@ -348,7 +354,7 @@ def gen_random(rng, deep=False):
             elif which == "pcap_open":
                 mode = rng.weighted([(60, "r"), (25, "w"), (15, "x")])
                 if mode == "r":
-                    path = rng.weighted([(40, GOODP), (14, TRUNCP), (7, EMPTYP), (7, SHORTP), (7, GARBP), (6, SMALL), (7, MISSING), (6, DIR), (6, NOTDIR), (3, LONG), (3, LOOP), (5, PROCMEM)])
+                    path = rng.weighted([(40, GOODP), (14, TRUNCP), (7, EMPTYP), (7, SHORTP), (7, GARBP), (6, SMALL), (7, MISSING), (6, DIR), (6, NOTDIR), (3, LONG), (3, LOOP), (5, PROCMEM), (6, NEARP)])
                     kind = "pcapr" if path in (GOODP, TRUNCP) else "err"
                 else:
                     path = rng.weighted([(45, "fresh"), (10, EXISTS), (8, DIR), (8, NOTDIR), (8, NODIR), (21, FULL), (3, LONG), (3, LOOP)])
@@ -385,7 +391,7 @@ def gen_random(rng, deep=False):
                 ops.append({"op": c, "h": v})
         elif k in ("writer", "fullwriter", "stdout"):
             if rng.chance(70):
-                ops.append({"op": "write", "h": v, "data": _wd(rng.weighted([(34, "small"), (13, "nonl"), (21, "big"), (17, "mid"), (8, "pkt_small"), (7, "pkt_big")]))})
+                ops.append({"op": "write", "h": v, "data": _wd(rng.weighted([(32, "small"), (12, "nonl"), (20, "big"), (16, "mid"), (8, "pkt_small"), (7, "pkt_big"), (5, "nl_byte")]))})
             else:
                 ops.append({"op": "flush", "h": v})
         elif k == "pcapr":
